@@ -1105,3 +1105,40 @@ def c17(ctx):
     for k in ("abstained_quirk", "ast_checked", "ast_mismatch", "rejected_by_compile"):
         rep.setdefault(k, 0)
     ctx.absorb("C17-json", rep)
+
+
+# ------------------------------------------------------------------- C20
+RULES["C20"] = ("(i) every pattern of length <= 4 (quick) / 5 over {a, b, '.', '*'} with at most 3 stars x every file name of "
+                "length <= 4/5 over {a, b, '.'}, materialised as one directory of 118 (quick) files; (ii) a directory tree of "
+                "depth 3 x 190 patterns with 1..3 segments (literal and wildcard directory segments, no all-star directory "
+                "segment, no . / ..); each pattern relative and absolute; expected list = FileList of spec/Glob.tla; a case is "
+                "one (pattern, tree); non-trivial = the expected list is non-empty")
+
+
+@check("C20")
+def c20(ctx):
+    ctx.technique = "segment match and tree walk as TLA+ definitions (spec/Glob.tla) evaluated by TLC; lists compared with ParsePath/GetFileList on materialised trees"
+    dm = ctx.scratch.sub("mcglob")
+    outm, stm = vlib.run_tlc(dm, "MC_Glob", "SPECIFICATION Spec\nINVARIANT DefinitionsAgree\nCONSTANT OutFile = \"unused.ndjson\"\n"
+                             "CONSTANT Tier = \"%s\"\nCHECK_DEADLOCK FALSE\n" % ctx.tier, workers=8, timeout=600, heap="4g")
+    if not stm["ok"]:
+        raise Undecided("MC_Glob failed:\n" + vlib.tlc_error_excerpt(outm))
+    ctx.add_mc("MC_Glob", stm, "the recursive segment match agrees with the split-along-literal-pieces definition for every pattern x name of the scope")
+    d = ctx.scratch.sub("glob")
+    out, st = vlib.run_tlc(d, "Glob", "CONSTANT OutFile = \"cases.ndjson\"\nCONSTANT Tier = \"%s\"\n" % ctx.tier, workers=1, timeout=600, heap="4g")
+    cp, rp = os.path.join(d, "cases.ndjson"), os.path.join(d, "report.json")
+    if not os.path.exists(cp) or not st["ok"]:
+        raise Undecided("Glob.tla failed:\n" + vlib.tlc_error_excerpt(out))
+    p = subprocess.run([ctx.get_harness(), "globcheck", "-cases", cp, "-report", rp,
+                        "-replaydir", os.path.join(vlib.VERIF, "replays", "C20")], capture_output=True, text=True, timeout=900)
+    if p.returncode != 0 or not os.path.exists(rp):
+        raise Undecided("globcheck failed: " + p.stderr[-1500:])
+    with open(rp) as f:
+        rep = json.load(f)
+    for k in ("abstained_quirk", "ast_checked", "ast_mismatch", "rejected_by_compile"):
+        rep.setdefault(k, 0)
+    ctx.absorb("C20-glob", rep)
+    m = re.search(r'"patterns", (\d+), (\d+), "names", (\d+)', out)
+    if m:
+        ctx.diagnostics["scope"] = {"flat_patterns": int(m.group(1)), "tree_patterns": int(m.group(2)), "names": int(m.group(3)),
+                                    "pattern_name_pairs": int(m.group(1)) * int(m.group(3))}
